@@ -3,9 +3,9 @@
    Spec/NeutronData.v their per-atom inputs from the tabulated data ([tab_comp], [tab_cell]),
    Model/NsfCalc.v the code-shaped model ([neutron_scattering], [atom_scattering]);
    [evalR no_env_R e] is the real number an expression of the model denotes. *)
-From Coq Require Import Reals ZArith QArith Qreals List.
+From Coq Require Import Reals ZArith QArith Qreals List String.
 From PT Require Import Str Dec Loaders Formula AtomEnv C06Check Nsf C07Check C07Sweep IExpr Neutron NsfCalc NeutronData
-                       C03Spec C03Data C03Refine C03Top.
+                       C03Spec C03Data C03Refine C03Top C03Tables.
 Import ListNotations.
 Open Scope R_scope.
 
@@ -212,3 +212,26 @@ Proof. exact formula_object_natural_density_keyword_wins. Qed.
 Theorem C03_formula_object_own_density_by_default : forall D s own ws,
   neutron_scattering_formula D s own None None ws = neutron_scattering D s own None ws.
 Proof. exact formula_object_own_density_by_default. Qed.
+
+(* ---- the regenerated Lynn & Seeger tables are internally consistent: every row carries Re(a), Im(a) and |a| to two
+   decimals, and | |a| - sqrt(Re^2 + Im^2) | <= 0.0125 (as squares, over Q) - a mis-typed cell of the data the
+   library reads breaks this.  One row of the data as it stands does not satisfy it (known finding):
+   natural Eu at 0.37 eV, Im(a) = -3.38 where -3.58 would be consistent. *)
+Open Scope Q_scope.
+Theorem C03_energy_tables_modulus_consistent_partial : forall sym iso rows row,
+  In (sym, iso, rows) Gen.NsfTables.energy_dependent_tables -> In row rows ->
+  known_bad sym iso row = false -> row_ok row = true.
+Proof. exact energy_tables_modulus_consistent_partial. Qed.
+Print Assumptions C03_energy_tables_modulus_consistent_partial.
+
+Theorem C03_modulus_ok_meaning : forall re im m, modulus_ok re im m = true ->
+  MOD_TOL <= m /\ (m - MOD_TOL) * (m - MOD_TOL) <= re * re + im * im /\ re * re + im * im <= (m + MOD_TOL) * (m + MOD_TOL).
+Proof. exact modulus_ok_spec. Qed.
+Print Assumptions C03_modulus_ok_meaning.
+
+Theorem C03_energy_tables_modulus_consistent_refuted : exists sym iso rows row,
+  In (sym, iso, rows) Gen.NsfTables.energy_dependent_tables /\ In row rows /\ row_ok row = false /\
+  row = ["0.37"; "3.17"; "-3.38"; "4.78"]%string.
+Proof. exact energy_tables_modulus_consistent_refuted. Qed.
+Print Assumptions C03_energy_tables_modulus_consistent_refuted.
+
